@@ -113,6 +113,96 @@ def oracleList (g : Grammar) (L : Nat) : List (List Tok) × Bool :=
 
 def stripExtras (g : Grammar) (w : List Tok) : List Tok := w.filter fun t => !(extraToks g).contains t
 
+/-! ## dynamic precedence of derivations (for grammars with declared conflicts)
+
+`DerivesTokD g r w d`: `w` is derived by `r` through a derivation whose `PREC_DYNAMIC` values sum to
+`d`.  `dynOracle` enumerates all (string, total) pairs up to length `L`; the judge compares the
+dynamic precedence the runtime stored in the root of the real tree with the maximum over all
+derivations of the same string. -/
+
+inductive DerivesTokD (g : Grammar) : Rule → List Tok → Int → Prop
+  | blank : DerivesTokD g .blank [] 0
+  | str {s} : DerivesTokD g (.str s) [⟨s, false⟩] 0
+  | symTok {x b} : g.body x = some b → isTerminalBody b = true → DerivesTokD g (.sym x) [⟨x, true⟩] 0
+  | symRule {x b w d} : g.body x = some b → isTerminalBody b = false → DerivesTokD g b w d → DerivesTokD g (.sym x) w d
+  | seq {a b u v d e} : DerivesTokD g a u d → DerivesTokD g b v e → DerivesTokD g (.seq a b) (u ++ v) (d + e)
+  | choiceL {a b w d} : DerivesTokD g a w d → DerivesTokD g (.choice a b) w d
+  | choiceR {a b w d} : DerivesTokD g b w d → DerivesTokD g (.choice a b) w d
+  | repNil {a} : DerivesTokD g (.rep a) [] 0
+  | repCons {a u v d e} : DerivesTokD g (.rep a) u d → DerivesTokD g a v e → DerivesTokD g (.rep a) (u ++ v) (d + e)
+  | rep1 {a u v d e} : DerivesTokD g (.rep a) u d → DerivesTokD g a v e → DerivesTokD g (.rep1 a) (u ++ v) (d + e)
+  | field {n a w d} : DerivesTokD g a w d → DerivesTokD g (.field n a) w d
+  | alias {v n a w d} : DerivesTokD g a w d → DerivesTokD g (.alias v n a) w d
+  | precDyn {v a w d} : DerivesTokD g a w d → DerivesTokD g (.prec .dynamic v a) w (d + v)
+  | prec {k v a w d} : k ≠ .dynamic → DerivesTokD g a w d → DerivesTokD g (.prec k v a) w d
+
+abbrev EnvD := List (String × List (List Tok × Int))
+
+def EnvD.get (env : EnvD) (x : String) : List (List Tok × Int) := (env.lookup x).getD []
+
+def dedupD (l : List (List Tok × Int)) : List (List Tok × Int) :=
+  (l.foldl (fun (acc : Std.HashSet (List Tok × Int) × List (List Tok × Int)) x =>
+      if acc.1.contains x then acc else (acc.1.insert x, x :: acc.2)) (∅, [])).2.reverse
+
+def concatD (L : Nat) (A B : List (List Tok × Int)) : List (List Tok × Int) :=
+  A.flatMap fun u => B.filterMap fun v => if u.1.length + v.1.length ≤ L then some (u.1 ++ v.1, u.2 + v.2) else none
+
+def repCloseD (L : Nat) (A : List (List Tok × Int)) : Nat → List (List Tok × Int)
+  | 0 => [([], 0)]
+  | k + 1 => dedupD (repCloseD L A k ++ concatD L (repCloseD L A k) A)
+
+def evalRuleD (g : Grammar) (env : EnvD) (L : Nat) : Rule → List (List Tok × Int)
+  | .blank => [([], 0)]
+  | .str s => [([⟨s, false⟩], 0)]
+  | .sym x =>
+    match g.body x with
+    | some b => if isTerminalBody b then [([⟨x, true⟩], 0)] else env.get x
+    | none => []
+  | .seq a b => dedupD (concatD L (evalRuleD g env L a) (evalRuleD g env L b))
+  | .choice a b => dedupD (evalRuleD g env L a ++ evalRuleD g env L b)
+  | .rep a => repCloseD L (evalRuleD g env L a) L
+  | .rep1 a => dedupD (concatD L (repCloseD L (evalRuleD g env L a) L) (evalRuleD g env L a))
+  | .field _ a => evalRuleD g env L a
+  | .alias _ _ a => evalRuleD g env L a
+  | .prec k v a => if k = .dynamic then (evalRuleD g env L a).map fun e => (e.1, e.2 + v) else evalRuleD g env L a
+  | _ => []
+
+def enumStepD (g : Grammar) (L : Nat) (env : EnvD) : EnvD :=
+  g.rules.map fun (x, b) => (x, evalRuleD g env L b)
+
+def envSizeD (env : EnvD) : Nat := (env.map fun e => e.2.length).foldl (· + ·) 0
+
+def enumFixD (g : Grammar) (L : Nat) : Nat → Nat → EnvD → EnvD × Bool
+  | 0, _, env => (env, false)
+  | cap + 1, k, env =>
+    let env' := enumStepD g L env
+    if envSizeD env' == envSizeD env && k > 0 then (env', true) else enumFixD g L cap (k + 1) env'
+
+/-- all (string, total dynamic precedence) pairs of derivations from the start rule, strings of length ≤ L -/
+def dynOracle (g : Grammar) (L : Nat) : List (List Tok × Int) × Bool :=
+  let r := enumFixD g L (6 * L + 2 * g.rules.length + 8) 0 []
+  (r.1.get g.start, r.2)
+
+def maxDyn (o : List (List Tok × Int)) (w : List Tok) : Option Int :=
+  (o.filter fun e => e.1 == w).foldl (fun acc e => match acc with
+    | none => some e.2
+    | some m => some (if e.2 > m then e.2 else m)) none
+
+def hasDynRule : Rule → Bool
+  | .prec .dynamic _ _ => true
+  | .prec _ _ a => hasDynRule a
+  | .seq a b => hasDynRule a || hasDynRule b
+  | .choice a b => hasDynRule a || hasDynRule b
+  | .rep a => hasDynRule a
+  | .rep1 a => hasDynRule a
+  | .field _ a => hasDynRule a
+  | .alias _ _ a => hasDynRule a
+  | .token a => hasDynRule a
+  | .immToken a => hasDynRule a
+  | _ => false
+
+def hasDyn (g : Grammar) : Bool := g.rules.any fun e => hasDynRule e.2
+
 /-- every terminal of the grammar is an anonymous string or a whole-rule token -/
 def simpleRule : Rule → Bool
   | .pat _ => false
